@@ -213,7 +213,11 @@ func (c *sortCtx) structSort(t types.Type, st *types.Struct) string {
 	var fnames []string
 	for i := 0; i < st.NumFields(); i++ {
 		f := st.Field(i)
-		fn := q(fmt.Sprintf("%s.%s", key, f.Name()))
+		fname := f.Name()
+		if fname == "_" {
+			fname = fmt.Sprintf("_%d", i) // blank fields may repeat: accessors must not
+		}
+		fn := q(fmt.Sprintf("%s.%s", key, fname))
 		fnames = append(fnames, fn)
 		fs = append(fs, fmt.Sprintf("(%s %s)", fn, c.sortOf(f.Type())))
 	}
